@@ -80,8 +80,37 @@ class Totality:
             view = self.prog.view(key, cfg)
             self.ai_memo[k] = None   # recursion guard
             self.ai_memo[k] = absint.Analysis(view, ret_len=self._ret_len, ret_discr=self._ret_discr,
-                                              ret_interval=self._ret_interval)
+                                              ret_interval=self._ret_interval, ret_paths=self._ret_paths)
         return self.ai_memo[k]
+
+    def _ret_paths(self, callee, term, caller_ai, st, depth=[0]):
+        """Intervals of the scalar fields of the tuple a small local function returns, for the argument intervals of
+        this call (e.g. overflowing_add at BITS == 0 returns (ZERO, false))."""
+        cb = self.prog.bodies[callee]
+        if cb["kind"] not in ("Fn", "AssocFn") or len(cb["blocks"]) > 60 or depth[0] > 3:
+            return None
+        ccfg = self.callee_cfg(caller_ai.v, term["fn"], callee, caller_ai.v.cfg)
+        if ccfg == "any":
+            return None
+        argiv = {}
+        for i, a in enumerate(term["args"]):
+            iv, _ = caller_ai.eval_operand(st, a)
+            if iv is not None:
+                argiv[i + 1] = iv
+        eff = ccfg if "BITS" in self.prog.const_params(cb) else None
+        mk = ("paths", callee, eff, tuple(sorted(argiv.items())))
+        if mk not in self.ai_memo:
+            self.ai_memo[mk] = None
+            depth[0] += 1
+            try:
+                a = absint.Analysis(self.prog.view(callee, eff), arg_intervals=argiv, ret_interval=self._ret_interval,
+                                    ret_paths=self._ret_paths, ret_discr=self._ret_discr)
+                self.ai_memo[mk] = a.return_paths()
+            except RuntimeError:
+                self.ai_memo[mk] = None
+            finally:
+                depth[0] -= 1
+        return self.ai_memo[mk]
 
     def _ret_interval(self, callee, term, caller_ai, st, depth=[0]):
         """Interval of the integer a small local function returns for the argument intervals of this call
